@@ -1,3 +1,58 @@
-import BareModel.Structured
+import BareProofs.C01Parse
+import BareProofs.C01Exact
+
+/-!
+# C01 — structured control flow runs with its source-level meaning
+
+Property theorems (helper lemmas live in `C01ParseLemmas`, `C01Parse`, `C01Lemmas`, `C01Exact`):
+
+* **T1 `C01.parseLines_render`** — the line-at-a-time stack/counter algorithm of `parse_script` (mirror `Lower.parseLines`)
+  computes exactly the recursive lowering `lowerProgram`, for every well-nested structured program of any depth/size;
+  **`C01.parse_rejects_ill_nested`** — and rejects exactly the ill-nested ones.
+* **T2 `C01.lower_exact` / `C01.execute₀_lowered` / `C01.lower_exact_body`** — the jump machine on the lowered code *is*
+  the ticked structured semantics `execT` (an equation between functions of fuel, counter, locals and state: return
+  value, every effect, the statement count, divergence and budget exhaustion are all preserved), globally and for
+  function bodies.
+* **`C01.parse_then_run`** (below) — the composition: parsing the rendered program succeeds and executing the result
+  equals the structured run.
+* T3 (`C01Erase`, separate module): erasure of ticks and hidden `for` variables to the plain source-level reading.
+
+Hypotheses are decidable predicates on the structured program: `WellNested` (what the parser accepts), `FidsInOrder`
+(function definitions numbered in source order, as the parser numbers them), `NoAdjacentIncludes` (consecutive include
+lines are merged into one statement by the parser, so adjacent `include` nodes are one node), `NoRawB` (no raw
+`label`/`jump` statements: C01 quantifies over structured programs).
+-/
+
 namespace C01
+open Machine Lower Structured
+
+variable {W : Type} (cfg : Config W) (base : Option String)
+
+/-- **C01 (machine level)**: for every structured program, `parse_script` of its source lines succeeds with the
+recursive lowering, and running that model from a fresh counter equals the (ticked) structured run of the source. -/
+theorem parse_then_run (B : List SStmt) (hw : WellNested B) (hf : FidsInOrder B) (hi : NoAdjacentIncludes B)
+    (hr : NoRawB B) (fuel : Nat) (st : State W) :
+    ∃ P, parseLines (renderB B) = .ok P ∧
+      execute₀ cfg fuel P base st =
+        toRes (execTB cfg (callValue₀ cfg) (execIncludes₀ cfg) false B 0 fuel none base { st with count := 0 }) :=
+  ⟨lowerProgram B, parseLines_render B hw hf hi, execute₀_lowered cfg base B hr fuel st⟩
+
+/-- the loop condition is re-tested before every iteration that is reached by falling through the body (the exception,
+`continue` inside `while`, is known finding F7 and is what `loopW` encodes) — unfolding of the definition, kept here
+so that the statement the theorem is about is visible next to it -/
+theorem while_retests_after_body (cv : CallAt W) (c : Expr) (body : Nat → Option Env → State W → TOut W)
+    (n fuel : Nat) (l : Option Env) (st : State W) (l1 : Option Env) (st1 : State W) (f1 : Nat)
+    (h : body fuel l st = .norm l1 st1 f1) :
+    loopW cfg cv c body (n+1) fuel l st =
+      stmtCond cfg cv c f1 l1 st1 fun taken f2 st2 =>
+        if taken then loopW cfg cv c body n f2 l1 st2 else stmtSkip cfg f2 l1 st2 := by
+  simp only [loopW, h]
+
+/-- F7 as a theorem about the code as it is: `continue` in a `while` body restarts the body without testing `c` -/
+theorem while_continue_actual (cv : CallAt W) (c : Expr) (body : Nat → Option Env → State W → TOut W)
+    (n fuel : Nat) (l : Option Env) (st : State W) (l1 : Option Env) (st1 : State W) (f1 : Nat)
+    (h : body fuel l st = .cont l1 st1 f1) :
+    loopW cfg cv c body (n+1) fuel l st = loopW cfg cv c body n f1 l1 st1 := by
+  simp only [loopW, h]
+
 end C01
